@@ -195,7 +195,7 @@ func c11History(c *vc.Ctx, idx int) {
 	for i := 0; i < nv; i++ {
 		powers = append(powers, uint64(5+r.Intn(40)))
 	}
-	cfg := lockCfg{Label: "c11", NVals: nv, Powers: powers, MaxVals: int64(2 + r.Intn(5)), Blocks: c.Pick(60, 150), Protect0: true, JumpTime: idx%2 == 0, TimeEdges: idx%2 == 1,
+	cfg := lockCfg{Label: "c11", NVals: nv, Powers: powers, MaxVals: int64(2 + r.Intn(5)), Blocks: c.Pick(60, 150), Protect0: true, JumpTime: idx%2 == 0, TimeEdges: idx%2 == 1, HugeWeights: idx%4 == 2,
 		W: lockWeights{Create: 10, Lock: 55, Unlock: 50, Claim: 5, Grant: 3, Weight: 10, Threshold: 10, Absent: 25, Evidence: 10, DustLock: 20, BigUnlock: 25},
 		Params: func(p *lockingtypes.Params) {
 			if idx%3 == 0 { // fractions under which small holdings truncate to zero
